@@ -114,11 +114,14 @@ func (e *Engine) evalGhostCall(c *FnCtx, env *Env, x *ECall) (Val, bool) {
 		if !ok {
 			// the verified code never calls it: the term denotes some value of the callee's result type about which
 			// nothing is known (so a clause that pins it down fails as an ordinary obligation, not as a malformed contract)
-			fn := c.eng.trackedSig(name)
-			if fn == nil {
-				panic(specError("lastcall(" + name + "): no such call on this path"))
+			rs := c.trackResT[name] // a call exists in the code, but none has happened yet on this path (e.g. at a loop head)
+			if rs == nil {
+				fn := c.eng.trackedSig(name)
+				if fn == nil {
+					panic(specError("lastcall(" + name + "): no such call on this path"))
+				}
+				rs = fn.Signature.Results()
 			}
-			rs := fn.Signature.Results()
 			if rs.Len() == 1 {
 				v = c.fresh("nocall$"+name, rs.At(0).Type(), env.st)
 			} else {
